@@ -33,6 +33,12 @@ CLAIMS = {
          "DESIGN.md §3 C18",
          "Trusted: std::io read_exact/write_all and byteorder semantics; genuine violations on the unchanged tree are listed in known_findings.jsonl (wrappers commit metadata before delegating).",
          "MIR taint tracking + dominator-based guard validation + path-trace comparison of writer/reader", True),
+
+ "C06": ("other",
+         "Interprocedural role inference over every `&mut Source` / seed value (fixpoint over ~300 functions in all layers and backends) plus must-call analysis on the do-while-abstracted CFG: every routine that draws a mask or error stream injects noise on every returning path; result-writing normalisations in the three noise kernels are dominated by a noise sink in the same loop; mask streams feed masks only; parameters named source_xe/source_xa/seed_xa/source_xu have exactly that role; NoiseInfos comes from the caller's enc_infos; noise, mask and normalisation use one radix; no constant or loop-invariant seeds; no other entropy; HashMap iteration order neutralised. Decides the injection / seed-separation / determinism clauses on all paths of all routines; sigma, bound and uniformity statistics are not decided.",
+         "DESIGN.md §3 C06",
+         "Trusted: the sampling primitives below the HAL behave as documented; do-while abstraction of row/column loops.",
+         "MIR dataflow: interprocedural role inference + post-dominator must-call + symbolic radix equality", True),
 }
 NOT_BUILT = {}
 
